@@ -84,12 +84,21 @@ def step (st : St) (j : Json) : Except String (St × Json × List Fired) := do
   let (s', e) ← match op with
     | "submitDE" => do pure (enqueue s (← jnat j "member") (← jnat j "k"))
     | "resetDE" => do pure (resetDE s (← jnat j "member"), Err.ok)
+    | "reimport" => do pure (s, Err.ok)      -- genesis export → import: nothing the model tracks changes
     | "badDE" => do pure (enqueueBad s (← jnat j "member"))
     | "request" => do
       -- a creation the implementation rolled back leaves no committee to read: offer the model the members
       -- holding a malformed pair (it fails only if one of them is at the head of an available member's queue)
       let committee := if (jstr out "err").toOption.getD "" == "" then (implAssigned out (s.count + 1) 1).map (·.1) else badHolders s
       pure (request s (100 + (← jnat j "sender")) (← jbool j "authority") (← parseCoins s j "feeLimit") committee (← jint j "height"))
+    | "oracleSigning" => do
+      -- signing source "oracle result", possibly interrupted by an out-of-gas panic inside safeCreateSigning: whether the
+      -- creation went through is read from the implementation (a new signing record exists); the model then performs the
+      -- whole creation, or nothing
+      if (implSigning out (s.count + 1)).isSome then
+        let committee := (implAssigned out (s.count + 1) 1).map (·.1)
+        pure (requestKeeper s (100 + (← jnat j "sender")) (← parseCoins s j "feeLimit") committee (← jint j "height"))
+      else pure (s, Err.createFailed)
     | "submit" => do pure (submit s (← jnat j "sid") (← jnat j "member") (← jbool j "signerOk") (← jbool j "valid"))
     | "endBlock" => do
       let committee : Nat → List Nat := fun sid =>
@@ -136,6 +145,12 @@ def step (st : St) (j : Json) : Except String (St × Json × List Fired) := do
     let gone := before.filter fun t => !queued.contains t && !histAll.contains t
     if !gone.isEmpty then
       fired := fired ++ [{ name := "de_left_queue_without_assignment", detail := jl (gone.map jn) }]
+  -- a genesis export/import keeps every member's queue: the same pairs in the order they were registered
+  if op == "reimport" then
+    for (m, k) in imembers.zip (List.range imembers.length) do
+      let q := (jnatList m "q").toOption.getD []
+      if q != s.queues (k + 1) then
+        fired := fired ++ [{ name := "genesis_roundtrip_changes_nonce_queue", detail := mkObj [("member", jn (k + 1)), ("before", jl ((s.queues (k + 1)).map jn)), ("after", jl (q.map jn))] }]
   if op == "submitDE" && ierr == "" then
     let m := (jnat j "member").toOption.getD 0
     let q := (jnatList (imembers.getD (m - 1) Json.null) "q").toOption.getD []
@@ -232,7 +247,8 @@ def step (st : St) (j : Json) : Except String (St × Json × List Fired) := do
     let iescrow := (jnatList out "escrow").toOption.getD []
     if iescrow != s.denoms.map (fun d => s.escrow d) then
       fired := fired ++ [{ name := "rejected_request_moved_coins", detail := Json.null }]
-  pure (st', (dump st').setObjVal! "err" (js (errCode e)), fired)
+  let ecode := if op == "oracleSigning" then (if e == Err.ok then "" else "not-created") else errCode e
+  pure (st', (dump st').setObjVal! "err" (js ecode), fired)
 
 def initSt (j : Json) : St :=
   let denoms := (jstrList j "denoms").toOption.getD ["uband"]
